@@ -60,6 +60,11 @@ AT_FORMS = {
 MK_FORMS = ["mk:readonly", "mk:strided", "mk:list"]
 TOL32 = 1e-3  # float32 letters (DESIGN 2.6)
 
+MAG_FORMS = ["mag:1", "mag:1e-6", "mag:1e-9", "mag:1e6", "mag:offset"]
+# further read-only letters, asked on the magnitude roots only (a small subset of the roots)
+MAG_SCALES = ["1e-6", "1e-9", "1e6", "1+1e-7"]
+MAG_RIGID = ["rotate-1e-7", "translate-1e6-spreads"]
+
 # refusal kinds the masking / geometry code distinguishes (each is a self-loop letter on the live mesh)
 REFUSALS = ["vmask-size", "vmask-no-triangle", "tmask-size", "tmask-none", "normals-2d"]
 
@@ -139,12 +144,21 @@ class Model(object):
     def __init__(self, cls, points, tris, colours=None, tcoords=None, dtype="int64", form="std"):
         self.cls = cls
         self.form = form
-        self.tol = TOL32 if form == "pt:float32" else TOL
+        self.base = TOL32 if form == "pt:float32" else TOL
         self.points = np.array(points, dtype=float)
         self.tris = [tuple(int(v) for v in t) for t in tris]
         self.colours = None if colours is None else np.array(colours, dtype=float)
         self.tcoords = None if tcoords is None else np.array(tcoords, dtype=float)
         self.dtype = dtype
+        # scale-aware tolerances: L = spread of the coordinates (unit of length of this mesh), cond = how large
+        # the coordinates are relative to it (a common offset costs that many digits), tol = relative tolerance
+        p = self.points
+        spread = float((p.max(0) - p.min(0)).max()) if p.size else 0.0
+        mag = float(np.abs(p).max()) if p.size else 0.0
+        self.L = spread or mag or 1.0
+        self.cond = max(1.0, mag / self.L)
+        self.k = max(1.0, 1e-3 * self.cond)
+        self.tol = self.base * self.k
 
     @property
     def n(self):
@@ -271,6 +285,15 @@ class C17(Check):
                         if f == "pt:list" and cls == "ColouredTriMesh":
                             continue  # its constructor reads points.shape: a python list is rejected by the tree
                         out.append((fam, arg, "s", cls, d, f))
+        # magnitude letters on a few small carriers; one long, thin mesh (many elements along one axis)
+        for cls in CLASSES:
+            for d in (2, 3):
+                for fam, arg in small + [("five", five_lists()[0])]:
+                    for f in MAG_FORMS:
+                        out.append((fam, arg, "s", cls, d, f))
+        for d in (2, 3):
+            out.append(("grid", (2, 40), "s", "TriMesh", d, "std"))
+            out.append(("grid", (2, 40), "s", "TriMesh", d, "mag:1e-6"))
         if self.tier != "quick":
             # 16-bit triangle lists on more than 256 vertices
             for cls in CLASSES:
@@ -422,6 +445,13 @@ class C17(Check):
                 tcoords = tcoords.tolist()
             else:
                 raise ValueError(form)
+        elif kind == "mag":
+            # the same payload at another legal magnitude (uniform, so the conditioning is kept)
+            if what == "offset":
+                points = points + 1e6 * float((points.max(0) - points.min(0)).max())
+            else:
+                f = float(what)
+                points, colours, tcoords = points * f, colours * f, tcoords * f
         elif kind not in ("std", "mk"):
             raise ValueError(form)
         return points, tl, colours, tcoords, copy
@@ -461,6 +491,8 @@ class C17(Check):
         # refused calls come first: every later letter of this state then runs on a live mesh that has seen them
         out = [("refuse", kind) for kind in REFUSALS if kind != "normals-2d" or m.d == 2]
         out += [("geom",)] + [("rigid", r) for r in RIGID] + [("scale", s) for s in SCALES]
+        if m.form.startswith("mag:"):
+            out += [("rigid", r) for r in MAG_RIGID] + [("scale", s) for s in MAG_SCALES]
         if level >= 1 and (m.n > DEPTH2_MAX_POINTS or len(m.tris) > DEPTH2_MAX_TRIS):
             return out
         n, k = m.n, len(m.tris)
@@ -797,7 +829,7 @@ class C17(Check):
         g = self._ref_geometry(model)
         k = len(model.tris)
         cls = model.cls
-        tol = model.tol
+        tol, L = model.tol, model.L  # relative tolerance, unit of length of this mesh
         self.note("form:%s:geom" % model.form)
         W = lambda m: "%s/%s%s" % (m, cls, where_suffix)  # noqa
         out = {}
@@ -809,10 +841,10 @@ class C17(Check):
         else:
             if not (a >= 0).all():
                 fails.append(Failure(W("tri_areas"), "non-negative", a.tolist()))
-            if not np.allclose(a, g["areas"], rtol=tol, atol=tol):
+            if not np.allclose(a, g["areas"], rtol=tol, atol=tol * L * L):
                 fails.append(Failure(W("tri_areas"), "half-cross-product", "expected %s got %s" % (g["areas"].tolist(), a.tolist())))
             ma = mesh.mean_tri_area()
-            if not abs(ma - g["areas"].mean()) <= tol * (1 + abs(ma)):
+            if not abs(ma - g["areas"].mean()) <= tol * (L * L + abs(ma)):
                 fails.append(Failure(W("mean_tri_area"), "mean", "expected %r got %r" % (g["areas"].mean(), ma)))
         # edge lengths
         el = np.asarray(mesh.edge_lengths())
@@ -822,7 +854,7 @@ class C17(Check):
         else:
             if not (el >= 0).all():
                 fails.append(Failure(W("edge_lengths"), "non-negative", el.tolist()))
-            if not np.allclose(el, g["elen"], rtol=tol, atol=tol):
+            if not np.allclose(el, g["elen"], rtol=tol, atol=tol * L):
                 fails.append(Failure(W("edge_lengths"), "euclidean-length", "expected %s got %s" % (g["elen"].tolist(), el.tolist())))
         ei = np.asarray(mesh.edge_indices())
         if ei.shape != (3 * k, 2):
@@ -852,13 +884,13 @@ class C17(Check):
             else:
                 ul = np.sort(np.asarray(mesh.unique_edge_lengths()))
                 out["ulen"] = ul
-                if ul.shape != g["ulen"].shape or not (ul >= 0).all() or not np.allclose(ul, g["ulen"], rtol=tol, atol=tol):
+                if ul.shape != g["ulen"].shape or not (ul >= 0).all() or not np.allclose(ul, g["ulen"], rtol=tol, atol=tol * L):
                     fails.append(Failure(W("unique_edge_lengths"), "euclidean-length", "expected %s got %s" % (g["ulen"].tolist(), ul.tolist())))
                 uv = np.asarray(mesh.unique_edge_vectors())
-                if uv.shape != (len(got), model.d) or not np.allclose(np.sqrt((uv ** 2).sum(1)), np.asarray(mesh.unique_edge_lengths()), rtol=tol, atol=tol):
+                if uv.shape != (len(got), model.d) or not np.allclose(np.sqrt((uv ** 2).sum(1)), np.asarray(mesh.unique_edge_lengths()), rtol=tol, atol=tol * L):
                     fails.append(Failure(W("unique_edge_vectors"), "shape-or-length", "shape %s" % (uv.shape,)))
                 mel = mesh.mean_edge_length()
-                if not abs(mel - g["ulen"].mean()) <= tol * (1 + abs(mel)):
+                if not abs(mel - g["ulen"].mean()) <= tol * (L + abs(mel)):
                     fails.append(Failure(W("mean_edge_length"), "mean", "expected %r got %r" % (g["ulen"].mean(), mel)))
         # boundary
         try:
@@ -891,7 +923,7 @@ class C17(Check):
                 if True:
                     es = g["edges3"]
                     cos = np.einsum("kej,kj->ke", es, tn.astype(float)) / np.sqrt((es ** 2).sum(2))
-                    bad = np.nonzero(np.abs(cos).max(1) > (1e-9 if tol == TOL else 1e-4))[0]
+                    bad = np.nonzero(np.abs(cos).max(1) > (1e-9 if model.base == TOL else 1e-4) * model.k)[0]
                     if bad.size:
                         i = int(bad[0])
                         fails.append(Failure(W("tri_normals"), "perpendicular", "triangle %r normal %s: cosines with its edges %s" % (model.tris[i], tn[i].tolist(), cos[i].tolist())))
@@ -937,6 +969,14 @@ class C17(Check):
         r = rs(self.seed, "c17", "rigid", name, d)
         R = np.eye(d)
         t = np.zeros(d)
+        if name == "rotate-1e-7":
+            # nearly but not exactly the identity (well above rounding)
+            a = 1e-7
+            R = np.eye(d)
+            R[0, 0], R[0, 1], R[1, 0], R[1, 1] = np.cos(a), -np.sin(a), np.sin(a), np.cos(a)
+            return R, t
+        if name == "translate-1e6-spreads":
+            return R, np.full(d, 1e6)  # multiplied by the spread of the mesh in _rigid
         if "translate" in name:
             t = -7.0 + 14.0 * r.rand(d)
         if name.startswith("rotate"):
@@ -972,29 +1012,32 @@ class C17(Check):
         if fails:
             return fails
         cls = model.cls
-        scale_len = max(1.0, s) * 10.0
-        rt, at = (1e-9, 1e-10) if model.tol == TOL else (TOL32, 1e-5)
-        if not np.allclose(v1["areas"], s * s * v0["areas"], rtol=rt, atol=at * scale_len ** 2):
+        kk = max(model.k, m2.k)
+        rt = (1e-9 if model.base == TOL else TOL32) * kk
+        L1 = s * model.L  # unit of length of the moved mesh
+        if not np.allclose(v1["areas"], s * s * v0["areas"], rtol=rt, atol=rt * L1 * L1):
             fails.append(Failure("tri_areas/%s" % cls, clause, "areas %s became %s (s=%r)" % (v0["areas"].tolist(), v1["areas"].tolist(), s)))
-        if not np.allclose(v1["elen"], s * v0["elen"], rtol=rt, atol=at * scale_len):
+        if not np.allclose(v1["elen"], s * v0["elen"], rtol=rt, atol=rt * L1):
             fails.append(Failure("edge_lengths/%s" % cls, clause, "lengths %s became %s (s=%r)" % (v0["elen"].tolist(), v1["elen"].tolist(), s)))
-        if not np.allclose(v1["ulen"], s * v0["ulen"], rtol=rt, atol=at * scale_len):
+        if not np.allclose(v1["ulen"], s * v0["ulen"], rtol=rt, atol=rt * L1):
             fails.append(Failure("unique_edge_lengths/%s" % cls, clause, "lengths %s became %s (s=%r)" % (v0["ulen"].tolist(), v1["ulen"].tolist(), s)))
         if not np.array_equal(v0["boundary"], v1["boundary"]):
             fails.append(Failure("boundary_tri_index/%s" % cls, clause, "%s became %s" % (v0["boundary"].tolist(), v1["boundary"].tolist())))
         if model.d == 3:
-            if not np.allclose(v1["tn"], v0["tn"].dot(R.T), rtol=0, atol=1e-9 if model.tol == TOL else 1e-4):
+            if not np.allclose(v1["tn"], v0["tn"].dot(R.T), rtol=0, atol=(1e-9 if model.base == TOL else 1e-4) * kk):
                 fails.append(Failure("tri_normals/%s" % cls, "follow-rotation" if clause == "rigid-invariance" else clause, "normals %s became %s, expected %s" % (v0["tn"].tolist(), v1["tn"].tolist(), v0["tn"].dot(R.T).tolist())))
         return fails
 
     def _rigid(self, st, name):
         R, t = self._rigid_letter(name, st["model"].d)
+        # translations are expressed in units of the mesh's own spread (scale-aware letters)
+        t = t * (st["model"].L / 5.0 if name != "translate-1e6-spreads" else st["model"].L)
         self.note("rigid:%s" % name)
         return self._invariance(st, R, t, 1.0, "", "rigid-invariance")
 
     def _scale(self, st, name):
         d = st["model"].d
-        s = 0.6 + rs(self.seed, "c17", "scale", d).rand() if name == "generic" else float(name)
+        s = 0.6 + rs(self.seed, "c17", "scale", d).rand() if name == "generic" else (1.0 + 1e-7 if name == "1+1e-7" else float(name))
         self.note("scale:%s" % name)
         return self._invariance(st, np.eye(d), np.zeros(d), s, "", "uniform-scaling")
 
@@ -1025,7 +1068,7 @@ class C17(Check):
             "vertex_normals:unit-required",
             "vertex_normals:orphan-exempt",
         ]
-        need += ["rigid:%s" % r for r in RIGID] + ["scale:%s" % s for s in SCALES]
+        need += ["rigid:%s" % r for r in RIGID + MAG_RIGID] + ["scale:%s" % s for s in SCALES + MAG_SCALES]
         forms = sorted(set(r[5] for r in self._form_roots()))
         need += ["form:%s:geom" % f for f in forms] + ["form:%s:mask" % f for f in forms]
         need += ["mask:structured-family", "form:big-mesh-small-index-dtype"]
@@ -1073,7 +1116,8 @@ class C17(Check):
             "[interp] vertex normals must be unit only for vertices of at least one triangle whose incident normals do not cancel; the orientation (sign) of normals is not part of the property",
             "depth 2 (thorough): masks of a masked mesh are enumerated when it has <= %d points and <= %d triangles; geometry letters always" % (DEPTH2_MAX_POINTS, DEPTH2_MAX_TRIS),
             "mixed vertex order letters: TriMesh (all families), thorough also the other classes on the <= 4 triangle lists; 5-triangle family: sorted + rotated by one for all classes, thorough adds the other three rotations for TriMesh",
-            "geometry tolerance %.0e (relative and absolute); masking comparisons are bitwise" % TOL,
+            "geometry tolerance: relative %.0e x max(1, 1e-3 x |coordinate| / spread); absolute parts are that times spread (lengths) or spread^2 (areas) of the mesh itself - never a fixed epsilon; masking comparisons are bitwise" % TOL,
+            "magnitude letters (payload x 1, 1e-6, 1e-9, 1e6, common offset of 1e6 spreads; further scale letters 1e-6, 1e-9, 1e6, 1+1e-7, a rotation by 1e-7 rad and a translation by 1e6 spreads) on 4 small meshes x class x dim, plus a 2 x 40 grid (plain and x 1e-6); rigid translations are expressed in units of the mesh's spread",
         ]
 
 
